@@ -57,6 +57,19 @@ def gen(tier, rng):
                     if tier == "quick" and flush == 0 and ao % 3: continue
                     add(api="deflate", inp=inp, level=level, wrap=[0, 1, 3][(level + flush) % 3], lbuf=3, table=[0, 1][ao % 2] if level == 0 else 0,
                         calls=[[n, ao, flush, 1 if flush == 0 else 0], [0, 1 << 16, flush, 1 if flush == 0 else 0]], tail_ai=n, tail_ao=1 << 16, cap=200, meta={"family": "stream-every-output-size", "cls": cls})
+    # an invalid-parameter call in the MIDDLE of a stream (level 4 / 9, level buffer missing or one byte short): it must be refused with nothing
+    # consumed or produced - at any point: before the first block, after a flush, with input buffered, with output pending - and the stream must go on
+    for cls, n in [("text", 3000), ("records", 40000)] + ([("random", 9000), ("lowent", 70000)] if tier == "thorough" else []):
+        inp = igz.corpus(rng, cls, n)
+        for level in range(4):
+            for kind in (1, 2, 3, 4):
+                for pos in range(6):
+                    step = [n // 7 + 1, 300, 20000][pos % 3]
+                    calls = [[step, [1 << 16, 11, 300][(pos + kind) % 3], [0, 1, 2, 0][(pos + j) % 4], 0] for j in range(n // step + 1)]
+                    at = min(len(calls) - 1, [0, 1, 2, 3, len(calls) // 2, len(calls) - 1][pos])
+                    calls.insert(at, [calls[at][0], 1 << 16, calls[at][2] + 16 * kind, 0])
+                    add(api="deflate", inp=inp, level=level, wrap=[0, 1, 3][(level + kind) % 3], lbuf=[0, 3][pos % 2], mem=pos % 3, calls=calls + [[0, 1 << 16, 0, 1]], tail_ai=n, tail_ao=1 << 16, cap=len(calls) + 400,
+                        meta={"family": "invalid-parameters-mid-stream", "cls": cls})
     # end_of_stream announced late (the block header went out in a call with end_of_stream = 0, so the trailer has to add an empty final block):
     # the call that reaches the trailer is offered every output size
     for cls, n in [("text", 300), ("random", 150)] + ([("zeros", 400), ("records", 2000)] if tier == "thorough" else []):
